@@ -259,6 +259,76 @@ theorem layer_direct_hit {H : Type} [DecidableEq H] (l : LConc H K B V) (h : H) 
     simp only [LConc.step, LConc.lookupBlock, hb, hfree, he]
     exact ⟨rfl, rfl⟩
 
+/-- `C08_layers_all_hits` — BOTH answer paths of the layered model in one statement. For every schedule of `LConc`
+    (block caches, transaction caches, `TransactionCache.Commit` one step per key, `BlockCache.Get` keeping `bc.mu` until
+    its state-cache lookup has returned — that is what the code does: `defer pcc.mu.Unlock()` — and the state cache's own
+    threads) without eviction, from a state whose state cache satisfies the invariant:
+    1. (fall-through) every lookup thread of the state cache that completed with a hit returns the ancestor-chain value of
+       its key at its block in the tree of the commits begun so far;
+    2. (pending maps) every answer in the log of direct answers was given by ONE step `a` of the schedule, a
+       `BlockCache.Get` or `TransactionCache.Get` for that handle and key, and is the result of the entry that the pending
+       map — of that block cache, resp. of that transaction or else of its block cache — held for THAT key in the
+       configuration reached just before `a`, an instant inside the lookup (`(l.run pre)` with `sched = pre ++ a :: post`);
+    3. (what a pending entry is) per key, a block cache's pending entry changes only by `BlockCache.Set` of that key on that
+       block cache, by the `setValue` step of a transaction commit carrying that key into it, or is emptied when the block's
+       own commit has returned. Hence the entry read in 2. is the latest write to that key in that block issued before the
+       read — the block's pre-commit view for that key, old or new while a transaction commit is half applied, never another
+       key's or another block's value.
+    (The transaction's own map changes only by its `Set` / `Remove` and is cleared by the last step of its `Commit`; that
+    is by construction of `LConc.step` and not restated as a lemma.) -/
+theorem C08_layers_all_hits {H : Type} [DecidableEq H] {l : LConc H K B V} {T : Tree K B V}
+    (hI : Inv l.base.sc T none) (h0 : l.base.Initial) (hn : BcsNodup l)
+    (sched : List (LStep H K B V)) (hev : (l.run sched).base.sc.evictions = l.base.sc.evictions) :
+    (∀ (tid : Nat) (r : Reader K B V) (v : V), (l.run sched).base.threads[tid]? = some (Thread.reader r) →
+      r.pc = .done (some v) → Chain (LConc.treeRun T l sched) r.key r.blk (.val v)) ∧
+    (∀ x ∈ (l.run sched).direct, x ∈ l.direct ∨
+      ∃ pre a post, sched = pre ++ a :: post ∧
+        ((∃ h k e, a = .bget h k ∧ (l.run pre).pendAt h k = some e ∧ x = (h, k, e.result)) ∨
+         (∃ t k e, a = .tget t k ∧ x = (t, k, e.result) ∧
+           ((l.run pre).tpendAt t k = some e ∨
+            ((l.run pre).tpendAt t k = none ∧ ∃ tc h, alookup (l.run pre).tcs t = some tc ∧ tc.main = .block h ∧
+              (l.run pre).pendAt h k = some e))))) ∧
+    (∀ (l' : LConc H K B V) (a : LStep H K B V) (h : H) (k : K),
+      (l'.step a).pendAt h k = l'.pendAt h k ∨
+      (∃ v, a = .bset h k v ∧ (l'.step a).pendAt h k = some (.val v)) ∨
+      (∃ t j e rest, a = .tcApply t ∧ l'.jobs.find? (fun j => j.t == t) = some j ∧ j.h = h ∧ j.rest = (k, e) :: rest ∧
+        (l'.step a).pendAt h k = some e) ∨
+      (∃ tid, a = .sc tid ∧ (l'.step a).pendAt h k = none)) := by
+  refine ⟨(C08_layers_hit_correct hI h0 hn sched hev).2, fun x hx => ?_, LConc.step_pendAt⟩
+  rcases LConc.run_direct_mem l sched x hx with h1 | ⟨pre, a, post, hs, hd⟩
+  · exact .inl h1
+  · refine .inr ⟨pre, a, post, hs, ?_⟩
+    cases a with
+    | bget h k =>
+      obtain ⟨e, he, hxe⟩ := LConc.directAns_bget hd
+      exact .inl ⟨h, k, e, rfl, he, hxe⟩
+    | tget t k =>
+      obtain ⟨e, hxe, he⟩ := LConc.directAns_tget hd
+      exact .inr ⟨t, k, e, rfl, hxe, he⟩
+    | sc tid => simp [LConc.directAns] at hd
+    | bset h k v => simp [LConc.directAns] at hd
+    | bcBegin h => simp [LConc.directAns] at hd
+    | tset t k v => simp [LConc.directAns] at hd
+    | trem t k => simp [LConc.directAns] at hd
+    | tcBegin t => simp [LConc.directAns] at hd
+    | tcApply t => simp [LConc.directAns] at hd
+
+/-- non-vacuity of `C08_layers_all_hits`: block A (hash 10) is committed with keys 1 ↦ 3 and 2 ↦ 4; block cache 0 for its
+    child B (hash 11) is empty; transaction 5 on it writes 1 ↦ 7 and 2 ↦ 8. Schedule: the transaction's commit begins and
+    applies key 1; `BlockCache.Get` of key 1 answers 7 from the pending map; `BlockCache.Get` of key 2 finds nothing
+    pending, locks the block cache and walks the state cache (thread 0) — while it runs, the second `setValue` of the
+    transaction commit is BLOCKED on `bc.mu` (the step changes nothing); the walk returns A's value 4: the old value of
+    key 2, the new value of key 1 — half a transaction, each key answered correctly; then the commit finishes and key 2
+    answers 8. -/
+example :
+    let s0 := ((Sys.new 200 2000 : Sys Nat Nat Nat Nat).run [.blk 9 10 0, .bset 9 1 3, .bset 9 2 4, .bcommit 9]).1
+    let l0 : LConc Nat Nat Nat Nat :=
+      ⟨⟨s0.sc, none, []⟩, [(0, ⟨11, 10, [], false⟩)], [(5, ⟨.block 0, [(1, .val 7), (2, .val 8)]⟩)], [], [], []⟩
+    let l := l0.run [.tcBegin 5, .tcApply 5, .bget 0 1, .bget 0 2, .tcApply 5, .sc 0, .sc 0, .sc 0, .sc 0, .sc 0, .sc 0,
+                     .tcApply 5, .tcApply 5, .bget 0 2]
+    l.direct = [(0, 2, some 8), (0, 1, some 7)] ∧ l.base.results = [some (some 4)] ∧ l.jobs.length = 0 := by
+  decide
+
 /-- half a transaction is observable, per key correctly: between two `setValue` steps of a `TransactionCache.Commit`
     writing keys 1 and 2 into block cache 0, `BlockCache.Get` answers key 1 from the pending map (new value 7) and hands
     key 2 to the state cache (a reader thread at the parent block is spawned) -/
